@@ -312,6 +312,14 @@ class Evaluator(object):
         fn = self._stack[-1].qualname if self._stack else '<module>'
         to_int = len(a) == 1 and not kwargs
         table = CONFIRMED_ROUNDINGS.get(fn)
+        if table is None:
+            # a helper that a confirmed rounding site calls (the rounding moved into `_advance(value)`): the site is the nearest caller that
+            # is one - and the rounding is recorded under ITS name, so that the digit rules of the property still see it
+            for fr_ in reversed(self._stack[:-1]):
+                if fr_.qualname in CONFIRMED_ROUNDINGS:
+                    table = CONFIRMED_ROUNDINGS[fr_.qualname]
+                    fn = fr_.qualname
+                    break
         if self._stack and not getattr(self._stack[-1].module, 'name', 'geodepy').startswith(('geodepy', 'api', 'Standalone')):
             # a reference formula of the checker (oracle module): its roundings are those of the reference
             table = 'any'
@@ -818,6 +826,9 @@ class Evaluator(object):
         items = None
         if isinstance(it, Tup):
             items = it.items
+        elif isinstance(it, CallV) and getattr(it, 'arity', None):
+            # the result of an opaque repository call whose every return is a tuple of one fixed length: its items by position
+            items = _callv_items(it)
         if items is not None and len(items) <= 64 and not _has_break(st):
             for x in items:
                 self.assign(st.target, x, env, func)
@@ -1513,7 +1524,9 @@ class Evaluator(object):
             # angular_typecheck (object -> .dec() -> dec_angle), which the R-UNITS / R-DISPATCH rules check where it matters
             norm_ = _dec_object_is_its_degrees if f.cls is None else None
             keys = tuple(argkey(norm_(full.get(p.name, NONE)) if norm_ is not None else full.get(p.name, NONE)) for p in f.params)
-            return CallV(alg.opaque('call:' + f.qualname, keys), f.qualname)
+            cv_ = CallV(alg.opaque('call:' + f.qualname, keys), f.qualname)
+            cv_.arity = _return_arity(f)
+            return cv_
         if sum(1 for s in self._stack if s is f) >= 2 or len(self._stack) > self.inline_depth + 8:
             keys = tuple(argkey(full.get(p.name, NONE)) for p in f.params)
             return CallV(alg.opaque('call:' + f.qualname, keys), f.qualname)
@@ -1713,10 +1726,15 @@ class Evaluator(object):
                     if fa is not None and fb is not None and fb != 0:
                         return Tup([C(fa // fb), C(fa % fb)])
                     return Tup([alg.opaque('floordiv', (a[0], a[1])), alg.opaque('mod', (a[0], a[1]))])
+                if short in ('zip', 'enumerate'):
+                    a = [Tup(_callv_items(x)) if isinstance(x, CallV) and getattr(x, 'arity', None) else y for x, y in zip(args, a)]
                 if short == 'zip' and all(isinstance(x, Tup) for x in a):
                     return Tup([Tup(list(t)) for t in zip(*[x.items for x in a])])
-                if short == 'enumerate' and len(a) == 1 and isinstance(a[0], Tup):
-                    return Tup([Tup([C(i), x]) for i, x in enumerate(a[0].items)])
+                if short == 'enumerate' and len(a) in (1, 2) and isinstance(a[0], Tup):
+                    st_ = kwargs.get('start', a[1] if len(a) == 2 else C(0))
+                    k0_ = _const_int(st_)
+                    if k0_ is not None:
+                        return Tup([Tup([C(i), x]) for i, x in enumerate(a[0].items, k0_)])
                 return alg.opaque(short, tuple(argkey(x) for x in a))
         if mod == 'numpy' or name.startswith('numpy.'):
             r = self.numpy_call(short, a, kwargs, node)
@@ -2279,6 +2297,22 @@ def input_typed(m):
 
 
 MATH_CALLS = []     # (function, name, call node, argument form, result form) of sqrt / acos / asin calls met by any evaluator
+
+def _return_arity(f):
+    """n when every `return` of the function is a tuple display of n elements, else None"""
+    ns = set()
+    for r in ast.walk(f.node):
+        if isinstance(r, ast.Return):
+            if isinstance(r.value, ast.Tuple) and not any(isinstance(e, ast.Starred) for e in r.value.elts):
+                ns.add(len(r.value.elts))
+            else:
+                return None
+    return ns.pop() if len(ns) == 1 else None
+
+
+def _callv_items(v):
+    return [CallV(alg.opaque('item', (v.rat, C(i))), v.name) for i in range(v.arity)]
+
 
 def _fold1(x, f, name):
     """a rounding function of one argument: folded exactly on a rational constant, an opaque generator otherwise"""
